@@ -5,15 +5,16 @@ whole call, and the `open` lemma: on a `DiskX` disk `recoverPre` succeeds and re
 satisfies `CInvX` for the re-attributed journal; its queues are the old ones up to the handles.
 -/
 import MRL.Proofs.LRead
+import MRL.Proofs.LEntry
 import MRL.Proofs.GRestart
 
 namespace MRL.L
-open MRL Codec Consts G H Log Buf C05 C01J
+open MRL Codec Consts G H Log Buf C05 C01J Torn
 
 /-- invariant of (log, journal, flushed disk) after crashes -/
 structure CInvX (g : Geom) (l : Log) (J : List JE) (D : Image) : Prop where
   jinv : JInv l J
-  disk : ∃ init t x afs lead gs, XInvX g l D (l.files.headD 0) J init t x afs lead gs
+  disk : ∃ init t x res ais lead gs, XInvX g l D (l.files.headD 0) J init t x res ais lead gs
 
 theorem TapeX.head {g : Geom} {l : Log} {D : Image} {F : Nat} {init : List Bytes} {t : Bytes} {x : Bool}
     (h : TapeX g l D F init t x) : l.files.headD 0 = F := by
@@ -24,14 +25,29 @@ theorem TapeX.head {g : Geom} {l : Log} {D : Image} {F : Nat} {init : List Bytes
 theorem CInvX.of_cinv {g : Geom} {l : Log} {J : List JE} {D : Image} (h : CInv g l J D) : CInvX g l J D := by
   refine ⟨h.jinv, ?_⟩
   obtain ⟨init, t, afs, lead, segs, x0⟩ := XInv.of_dinv h.disk
-  refine ⟨init, t, false, afs, lead, segs.map (fun s => (some s.1, s.2)), TapeX.of_tape x0.tape, x0.lay, ?_, x0.hlead,
-    ?_, ?_⟩
-  · rw [x0.hafs, List.flatMap_map]
+  have hfl : ∀ sg : List Seg, (sg.map (fun s : Seg => ((some s.1, plain s.2) : Grp))).flatMap (·.2) =
+      plain (sg.flatMap (·.2)) := by
+    intro sg
+    induction sg with
+    | nil => rfl
+    | cons s sg ih => simp only [List.map_cons, List.flatMap_cons, plain_append, ih]
+  refine ⟨init, t, false, [], plain afs, plain lead, segs.map (fun s => (some s.1, plain s.2)),
+    TapeR.of_tapeX (TapeX.of_tape x0.tape), ⟨?_, ?_, ?_, ?_, JOK_plain g _ _ _⟩, Or.inl rfl, ?_, ?_, ?_, ?_⟩
+  · rw [flatJ_plain, frs_plain]; exact x0.lay.bytes
+  · rw [frs_plain]; exact x0.lay.fits
+  · rw [tfs_plain]; exact x0.lay.tagged
+  · rw [frs_plain]; exact x0.lay.len
+  · rw [hfl, ← plain_append, x0.hafs]
+  · intro a ha
+    refine ⟨mem_plain ha, ?_⟩
+    simp only [plain, List.mem_map] at ha
+    obtain ⟨b, hb, rfl⟩ := ha
+    exact x0.hlead b hb
   · rw [← x0.hmap]
-    simp [liveOf, List.filterMap_map, Function.comp_def]
+    simp [liveOf, List.filterMap_map, Function.comp_def, tfs_plain]
   · intro y hy
     obtain ⟨s, hs, rfl⟩ := List.mem_map.mp hy
-    exact x0.hsok s hs
+    exact ⟨by rw [tfs_plain]; exact x0.hsok s hs, fun a ha => mem_plain ha⟩
 
 theorem cinvx_write (g : Geom) {l : Log} {J : List JE} {D : Image} (h : CInvX g l J D) (e : Entry)
     (qs' : MemQueues) (hewf : EntryWF e) (hre : replayEntry l.queues l.cur e = some qs')
@@ -42,10 +58,10 @@ theorem cinvx_write (g : Geom) {l : Log} {J : List JE} {D : Image} (h : CInvX g 
   have hhead : ({ (Log.writeEntry g l e).1 with queues := qs' } : Log).files.headD 0 = l.files.headD 0 := by
     have := hgrow.head h.jinv.h.files; exact this
   refine ⟨jinv_write g h.jinv e qs' hewf hre hinv, ?_⟩
-  obtain ⟨init, t, x, afs, lead, gs, hx⟩ := h.disk
+  obtain ⟨init, t, x, res, ais, lead, gs, hx⟩ := h.disk
   obtain ⟨i', t', x', ntf, B, hx', _⟩ := entry_extX g hx e
   rw [hhead]
-  exact ⟨i', t', x', _, lead, _, hx'.congr rfl rfl rfl⟩
+  exact ⟨i', t', x', [], _, lead, _, hx'.congr rfl rfl rfl⟩
 
 theorem mem_range'_lt {F n f : Nat} (h : f ∈ List.range' F n) : F ≤ f ∧ f < F + n := by
   rw [List.mem_range'_1] at h; exact h
@@ -56,12 +72,12 @@ theorem cinvx_gc (g : Geom) {l : Log} {J : List JE} {D : Image} (h : CInvX g l J
       (applyOsOps D (directOps (runGc g l order).2.1)) := by
   have hJ' := jinv_gc g order h.jinv
   refine ⟨hJ', ?_⟩
-  obtain ⟨init, t, x, afs, lead, gs, hx⟩ := h.disk
+  obtain ⟨init, t, x, res, ais, lead, gs, hx⟩ := h.disk
   rcases runGc_full g l order with ⟨h1, h2⟩ | ⟨names, h1, h2⟩
   · rw [h1, h2, List.append_nil]
-    exact ⟨init, t, x, afs, lead, gs, by simpa [directOps, applyOsOps] using hx⟩
+    exact ⟨init, t, x, res, ais, lead, gs, by simpa [directOps, applyOsOps] using hx⟩
   · rw [h1, h2]
-    obtain ⟨i3, t3, x3, ntf, ngs, B, y3, _⟩ := touches_extX g (l.files.headD 0) lead names l D J init t x afs gs hx
+    obtain ⟨i3, t3, x3, r3, ais3, gs3, y3, _⟩ := touches_extX g (l.files.headD 0) lead names l D J init t x res ais gs hx
     have k1 := y3.tape
     rcases hg : gcFiles ((writeTouches g l names).1.canDelete l.cur) (writeTouches g l names).1.files
       with ⟨rem, del⟩
@@ -102,7 +118,7 @@ theorem cinvx_gc (g : Geom) {l : Log} {J : List JE} {D : Image} (h : CInvX g l J
         files := List.range' (l.files.headD 0 + del.length) (i3.length + 1 - del.length + (if x3 then 1 else 0)) } : Log).files.headD 0 =
         l.files.headD 0 + del.length := c1.tape.head
     rw [hhead]
-    exact ⟨_, _, _, afs', lead', gs', c1⟩
+    exact ⟨_, _, _, _, afs', lead', gs', c1⟩
 
 /-- one call -/
 theorem cinvx_step (g : Geom) {l : Log} {J : List JE} {D : Image} (h : CInvX g l J D) (c : Call)
@@ -132,7 +148,7 @@ theorem cinvx_step (g : Geom) {l : Log} {J : List JE} {D : Image} (h : CInvX g l
 
 theorem CInvX.diskX {g : Geom} {l : Log} {J : List JE} {D : Image} (h : CInvX g l J D) :
     DiskX g D (l.files.headD 0) J := by
-  obtain ⟨init, t, x, afs, lead, gs, hx⟩ := h.disk
+  obtain ⟨init, t, x, res, ais, lead, gs, hx⟩ := h.disk
   exact hx.diskX
 
 theorem All2.pairwise_loc {l1 l2 : List JE} (h : All2 (fun a b : JE => a.loc = b.loc) l1 l2)
@@ -156,7 +172,7 @@ theorem open_diskX (g : Geom) (hB : g.B ≤ 65542) {X : Image} {F : Nat} {J : Li
       recoverPre g X policy none = .ok (lp, [.ensureLen F g.fileBytes], io) ∧
       CInvX g lp J' X ∧ (∀ j ∈ J', C07.WF j.e) ∧ AbsEq qs lp.queues ∧ lp.policy = policy ∧
       lp.files.headD 0 = F := by
-  obtain ⟨J', lp, io, init, t, x, afs, lead, gs', hrec, hx, hq, hab, hpol, hrel, hcur⟩ :=
+  obtain ⟨J', lp, io, init, t, x, res, ais, lead, gs', hrec, hx, hq, hab, hpol, hrel, hcur⟩ :=
     read_diskX g hB hd hwf qs hrep policy
   have hhead : lp.files.headD 0 = F := hx.tape.head
   have hInvlp : Inv lp := by
@@ -191,7 +207,7 @@ theorem open_diskX (g : Geom) (hB : g.B ≤ 65542) {X : Image} {F : Nat} {J : Li
   · rw [hhead]
     exact ⟨lp.queues, hq, QsEquiv.refl _, replayJ_wf _ _ QsWF.nil hq⟩
   · rw [hhead]
-    exact ⟨init, t, x, afs, lead, gs', hx⟩
+    exact ⟨init, t, x, res, ais, lead, gs', hx⟩
 
 /-- reopening a log whose disk satisfies the relaxed invariant -/
 theorem open_okX (g : Geom) (hB : g.B ≤ 65542) {l : Log} {J : List JE} {D : Image} (h : CInvX g l J D)
